@@ -74,6 +74,17 @@ type encEmb struct {
 	Extra string `class:"secret"`
 }
 
+// encPubBox tags CONTAINER fields public: a class tag classifies strings and byte slices; on a field that
+// holds a struct, a pointer, a slice of structs or a map it says nothing about what is inside.
+type encPubBox struct {
+	Ptr   *encLeaf          `class:"public"`
+	Val   encLeaf           `class:"public"`
+	Elems []*encLeaf        `class:"public"`
+	M     map[string]string `class:"public"`
+	Any   interface{}       `class:"public"`
+	Name  string            `class:"public"`
+}
+
 // encLead holds a struct BY VALUE as its first field: the field and its parent start at the same address.
 type encLead struct {
 	Head encLeaf
@@ -912,6 +923,17 @@ func (g *encGen) dept(where string, depth int) *encDept {
 }
 
 // payload builds one top-level payload; kind names the top-level shape.
+// salts and infos come in any length (0 = as labelled): key material is not limited to a block or a buffer size
+var saltLens = []int{0, 0, 0, 1, 63, 64, 65, 100, 128, 129, 300}
+
+func keyMaterial(label string, n int) []byte {
+	b := []byte(label)
+	for i := 0; len(b) < n; i++ {
+		b = append(b, byte('a'+i%26))
+	}
+	return b
+}
+
 func (g *encGen) payload(kind int, depth int) (interface{}, string) {
 	switch kind {
 	case 0:
@@ -965,6 +987,10 @@ func (g *encGen) payload(kind int, depth int) (interface{}, string) {
 		return g.recordPublic(), "*struct(record,public)"
 	case 21:
 		return g.recordProtected(), "*struct(record,protected)"
+	case 29:
+		pl, el1, al := g.leaf("*pubbox.Ptr"), g.leaf("*pubbox.Elems[]"), g.leaf("*pubbox.Any")
+		return &encPubBox{Ptr: &pl, Val: g.leaf("*pubbox.Val"), Elems: []*encLeaf{&el1}, M: map[string]string{"k": g.canary("redact", "*pubbox.M{}")},
+			Any: &al, Name: g.canary("keep", "*pubbox.Name")}, "*struct(public-tagged-containers)"
 	case 28:
 		return g.tagMapNamed("ntagmap"), "taggable-map(named-string-keys)"
 	case 27:
@@ -1265,10 +1291,10 @@ func runEncrypt(rc *RunCtx, prop string) {
 	kv := &keyVersion{n: 1, key: keyBytes(1)}
 	kv.w = newAead(kv.key, "key-1")
 	if tp.Choose(2, "salt") == 0 {
-		kv.salt = []byte("filter-salt")
+		kv.salt = keyMaterial("filter-salt", saltLens[tp.Choose(len(saltLens), "saltlen")])
 	}
 	if tp.Choose(2, "info") == 0 {
-		kv.info = []byte("filter-info")
+		kv.info = keyMaterial("filter-info", saltLens[tp.Choose(len(saltLens), "infolen")])
 	}
 	// C16: key ids are labels, not key material: successive wrappers may carry the same id, or none
 	keyID := func(n int) string { return fmt.Sprintf("key-%d", n) }
@@ -1339,10 +1365,10 @@ func runEncrypt(rc *RunCtx, prop string) {
 				nv.w = newAead(nv.key, keyID(nv.n))
 				nv.salt, nv.info = cur.salt, cur.info
 				if tp.Choose(2, "newsalt") == 0 {
-					nv.salt = []byte(fmt.Sprintf("salt-%d", nv.n))
+					nv.salt = keyMaterial(fmt.Sprintf("salt-%d", nv.n), saltLens[tp.Choose(len(saltLens), "saltlen")])
 				}
 				if tp.Choose(2, "newinfo") == 0 {
-					nv.info = []byte(fmt.Sprintf("info-%d", nv.n))
+					nv.info = keyMaterial(fmt.Sprintf("info-%d", nv.n), saltLens[tp.Choose(len(saltLens), "infolen")])
 				}
 				if tp.Choose(2, "via-payload") == 0 {
 					var rp interface{} = &encRotate{w: nv.w, salt: nv.salt, info: nv.info}
@@ -1402,7 +1428,7 @@ func runEncrypt(rc *RunCtx, prop string) {
 			d := &drawRec{tape: tp}
 			fill := []int{15, 40, 80}[tp.Choose(3, "fill")]
 			g := &encGen{d: d, exp: map[string]*leafExp{}, overrides: overrides, fill: fill, withIgnored: withIgnored}
-			kind := tp.Choose(29, "kind")
+			kind := tp.Choose(30, "kind")
 			depth := tp.Choose(3, "depth")
 			var payload interface{}
 			var top string
@@ -1430,7 +1456,7 @@ func runEncrypt(rc *RunCtx, prop string) {
 				// (an empty, non-nil slice is a value too: "no salt / info for this event")
 				switch d.next(3) {
 				case 0:
-					info.salt = []byte("event-salt")
+					info.salt = keyMaterial("event-salt", saltLens[tp.Choose(len(saltLens), "saltlen")])
 				case 1:
 					info.salt = []byte{}
 				}
